@@ -14,27 +14,13 @@ import sys
 import textwrap
 from pathlib import Path
 
-sys.path.insert(0, "/repo")
+sys.path.insert(0, os.environ.get("VERIF_REPO") or "/repo")
 sys.path.insert(0, "/verif/tools")
 os.environ.pop("FLOW_RECORD_IGNORE", None)
 
 from vf.coqlit import cbool, clist, cN, copt, cpair, cstr, cZ, chex  # noqa: E402
 
-GEN = Path("/verif/coq/gen")
-HEADER = "(* GENERATED by /verif/tools/vf/facts.py from /repo's working tree -- do not edit *)\n"
-
-
-class Unsupported(Exception):
-    pass
-
-
-def write_if_changed(path: Path, text: str):
-    if path.exists() and path.read_text() == text:
-        return
-    path.parent.mkdir(parents=True, exist_ok=True)
-    tmp = path.with_suffix(".tmp%d" % os.getpid())
-    tmp.write_text(text)
-    os.replace(tmp, path)
+from vf.factlib import GEN, HEADER, Unsupported, write_if_changed  # noqa: E402
 
 
 # ------------------------------------------------------------------------------------------
@@ -49,9 +35,14 @@ def _const_return(fn):
     body = list(node.body)
     if body and isinstance(body[0], ast.Expr) and isinstance(body[0].value, ast.Constant) and isinstance(body[0].value.value, str):
         body = body[1:]
-    if len(body) == 1 and isinstance(body[0], ast.Return) and isinstance(body[0].value, ast.Constant) \
-            and isinstance(body[0].value.value, bool):
-        return body[0].value.value
+    if len(body) == 1 and isinstance(body[0], ast.Return) and body[0].value is not None:
+        expr = body[0].value
+        # a closed constant expression (no names, calls, attributes): fold it
+        if not any(isinstance(n, (ast.Name, ast.Call, ast.Attribute, ast.Subscript, ast.Lambda, ast.Await, ast.Yield,
+                                  ast.NamedExpr, ast.ListComp, ast.GeneratorExp, ast.JoinedStr)) for n in ast.walk(expr)):
+            val = eval(compile(ast.Expression(expr), "<fact>", "eval"), {"__builtins__": {}}, {})
+            if isinstance(val, bool):
+                return val
     raise Unsupported("method %s is not `return <bool>` (line %d of %s)" % (
         fn.__qualname__, fn.__code__.co_firstlineno, fn.__code__.co_filename))
 
@@ -193,7 +184,26 @@ def gen_selector():
 GENERATORS = [gen_selector]
 
 
+def _discover():
+    """Per-property generator modules: tools/vf/factgen/*.py, each exporting GENERATORS (functions
+    named gen_<something>) written with the helpers of this module."""
+    import importlib
+    d = Path(__file__).parent / "factgen"
+    for p in sorted(d.glob("*.py")):
+        if p.name.startswith("_"):
+            continue
+        try:
+            m = importlib.import_module("vf.factgen." + p.stem)
+            GENERATORS.extend(m.GENERATORS)
+        except Exception as e:  # fail closed for whoever needs it
+            def bad(e=e, name=p.stem):
+                raise Unsupported("factgen module %s cannot be imported: %r" % (name, e))
+            bad.__name__ = "gen_" + p.stem
+            GENERATORS.append(bad)
+
+
 def main():
+    _discover()
     wanted = set(sys.argv[1:])
     errors = []
     for g in GENERATORS:
